@@ -82,6 +82,12 @@ pub(crate) fn remove_syntactic_sugar(
         if body.contains_anonymous_component(Some(reports)) {
             continue;
         }
+        // A malformed multi-substitution (e.g. `a % b = c`) contains no tuple
+        // but cannot be lifted either. Report it and drop the function.
+        if let Err(report) = remove_tuples_from_statement(body.clone()) {
+            reports.push(*report);
+            continue;
+        }
         new_functions.insert(name.clone(), function.clone());
     }
     (new_templates, new_functions)
